@@ -21,10 +21,11 @@ import (
 
 	"verifharness/exprgen"
 	. "verifharness/kit"
+	"verifharness/sdfgen"
 	"verifharness/shapes"
 )
 
-func main() { Main("C02", check, exprgen.Gen) }
+func main() { Main("C02", check, exprgen.Gen, sdfgen.Gen) }
 
 const imp = "From Sdfx Require Import Sdf.C02Corr.\nOpen Scope float_scope."
 
